@@ -158,10 +158,9 @@ def check_batches(ctx, fb):
     # persistent tree
     it = get(fb, "pmtree", "remove_indices")
     ctx.touch(it)
-    s = treefx.summarize(fb, it)
-    ok = bool(s["w"]) and treefx.same_sets(s["w"], s["f0"]) and not s["f1"]
-    ctx.check(ok, "R15-1", "pmtree::remove_indices", "positions reset %s = positions flagged empty" % [treefx.show_pos(x) for x in s["w"]],
-              "remove_indices resets %s but flags %s empty" % ([treefx.show_pos(x) for x in s["w"]], [treefx.show_pos(x) for x in s["f0"]]), loc(it))
+    ok, why = removal_span_rule(fb, it)
+    ctx.check(ok, "R15-1", "pmtree::remove_indices", "span [first, last] rewritten: removed positions get the default leaf and flag 0, the others their current leaf and no flag change",
+              why, loc(it))
     it = get(fb, "pmtree", "remove_indices_and_set_leaves")
     ctx.touch(it)
     s = treefx.summarize(fb, it)
@@ -191,10 +190,47 @@ def check_batches(ctx, fb):
         sel = tuple(sorted((sh(a, 60), str(v)) for a, v in cm if a[0] == "v"))
         rv = eng.value_of(p.store, p.ret)
         callee = rv[1].split("::")[-1] if isinstance(rv, tuple) and rv[0] == "call" else (rv[2] if rv[0] == "adt" else "?")
-        tgt[sel] = callee
+        tgt.setdefault(sel, set()).add(callee)
     want = {"set", "delete", "set_range", "remove_indices", "remove_indices_and_set_leaves", "Err"}
-    ctx.check(set(tgt.values()) == want, "R15-1", "pmtree::override_range dispatch", "six shapes (0/1/many leaves x 0/1/many removals) routed to %s" % sorted(want),
-              "dispatch targets %s" % sorted(set(tgt.values())), loc(it))
+    allt = set(x for v in tgt.values() for x in v)
+    ctx.check(allt == want, "R15-1", "pmtree::override_range dispatch", "six shapes (0/1/many leaves x 0/1/many removals) routed to %s" % sorted(want),
+              "dispatch targets %s" % sorted(allt), loc(it))
+
+
+def removal_span_rule(fb, it):
+    """PmTree::remove_indices: values[i - first] = default if i in indices else get(i), for i in first..last+1, written with
+    set_range(first, values); flags cleared exactly for the elements of `indices`"""
+    eng = Engine(fb, inline=lambda i: False)
+    paths = eng.run(it)
+    arms = {}
+    rng = None
+    for p in paths:
+        if p.kind != "backedge":
+            continue
+        pushes = [e for e in p.trace if e[0] == "push"]
+        con = [(a, v) for a, v in p.conds() if a[0] == "b" and a[1][0] == "call" and a[1][1].endswith("::contains") and a[1][2][0] == P(2)]
+        if pushes and con:
+            i = con[0][0][1][2][1]
+            arms[con[0][1]] = (pushes[0][3], i)
+            rng = range_var(i)
+    if set(arms) != {True, False}:
+        return False, "the span values are not chosen by `indices.contains(&i)` (arms found: %s)" % sorted(map(str, arms))
+    dv, i1 = arms[True]
+    kv, i2 = arms[False]
+    if not (dv[0] == "call" and dv[1].endswith("default_leaf")):
+        return False, "a removed position receives %s, specification the default leaf" % sh(dv, 80)
+    if not (kv[0] == "unwrap" and kv[1][0] == "call" and kv[1][1].endswith("MerkleTree::<D, H>::get") and kv[1][2] == (F(P(1), "tree"), i2)):
+        return False, "a position that is not removed receives %s, specification its current leaf tree.get(i)" % sh(kv, 100)
+    first = ("idx", P(2), mk_const("usize", 0))
+    if rng is None or rng[0] != first or "last" not in sh(rng[1], 200):
+        return False, "the span is %s, specification indices[0] .. last+1" % (rng,)
+    wr = [c for p in paths for c in p.calls(r"MerkleTree::<D, H>::set_range$")]
+    if not wr or any(c[2][1] != first or not (c[2][2][0] == "phi" and c[2][2][3] == "new_leaves") for c in wr):
+        return False, "the values are written with set_range(%s, %s), specification set_range(indices[0], values)" % (sh(wr[0][2][1], 40) if wr else None, sh(wr[0][2][2], 40) if wr else None)
+    s = treefx.summarize(fb, it)
+    if s["f1"] or [x[0] for x in s["f0"]] != ["elems"] or s["f0"][0][1] != P(2):
+        return False, "flags cleared for %s / set for %s, specification cleared exactly for the elements of `indices`" % ([treefx.show_pos(x) for x in s["f0"]], [treefx.show_pos(x) for x in s["f1"]])
+    return True, ""
 
 
 def check_listing(ctx, fb, cfg):
